@@ -138,10 +138,10 @@ func rng(t *rapid.T, lo, hi int, label string) int { return lo + uniform(t, hi-l
 func (pf *Profile) genStepFail(t *rapid.T) Step {
 	st := Step{Out: Transient}
 	if pf.RichOutcomes {
-		st.Out = pick(t, []Outcome{Transient, Transient, Permanent, Permanent, WrongType, WrongTypeErr}, "failOut")
+		st.Out = pick(t, []Outcome{Transient, Transient, Permanent, Permanent, WrongType, WrongTypeErr, RespAndErr, RespAndPermErr}, "failOut")
 		st.Wrap = rng(t, 0, 3, "wrap")
 	} else {
-		st.Out = pick(t, []Outcome{Transient, Permanent}, "failOut")
+		st.Out = pick(t, []Outcome{Transient, Permanent, RespAndErr, RespAndPermErr}, "failOut")
 	}
 	return st
 }
@@ -163,7 +163,7 @@ func (pf *Profile) genAction(t *rapid.T, fail bool, gateable bool, isCheck bool)
 		// transient failures in front
 		nTrans := rng(t, 0, a.Retries, "nTrans")
 		for i := 0; i < nTrans; i++ {
-			st := Step{Out: Transient}
+			st := Step{Out: pick(t, []Outcome{Transient, Transient, RespAndErr}, "transOut")}
 			if pf.RichOutcomes {
 				st.Wrap = rng(t, 0, 2, "wrapT")
 			}
